@@ -431,6 +431,21 @@ func runCowProp(c *Ctx, prop string) {
 			cowCase(c, fmt.Sprintf("fl%d", k), "cow(mem,mem)", items, prop)
 			k++
 		}
+		// the same sweep with an overlay that refuses every write (a ReadOnlyFs): a copy-up that cannot
+		// be made must not be replaced by writing to the base
+		for m := 0; m < 1<<12; m += step * 2 {
+			f := 0
+			for i, b := range flagBits {
+				if m&(1<<i) != 0 {
+					f |= b
+				}
+			}
+			items := []string{"0 0 Create 2f66", "0 - HWrite 0 616263", "0 - HClose 0", "0 - Chtimes 2f66 1000000000", "0 - Chtimes 2f 1000000000",
+				fmt.Sprintf(". 1 OpenFile 2f66 %d 420", f), ". - HWrite 1 7a7a", ". - HTruncate 1 1", ". - HWriteAt 1 79 0", ". - HWriteString 1 78", ". - HClose 1",
+				". - Chmod 2f66 384", ". - Chtimes 2f66 1000007000", ". - Remove 2f66", ". - Rename 2f66 2f67", "snap 0"}
+			cowCase(c, fmt.Sprintf("flro%d", k), "cow(mem,ro(mem))", items, prop)
+			k++
+		}
 		c.Extra["flag_sweep"] = fmt.Sprintf("%d of 4096 combinations of 12 O_* bits", k)
 		runOSBase(c, "C05")
 	}
